@@ -146,7 +146,36 @@ def run(tier):
                 diffs += 1
     else:
         res.notes.append("extraction build failed: " + xlog[-500:])
+    # D2: every command-stream tensor of the tier's compiled models, judged by the proved reader
+    # (Driver.parse_bytes, extracted) and by the oracle
+    import compiles
+    import artefacts
+    d2 = compiles.run_all(compiles.plan(["conv_chain", "conv_chain_big", "single", "diamond", "mixed_cpu", "lut_heavy",
+                                         "conv_chain_big", "single"], 64 if tier == "quick" else 1600, vlib.seed(), tag="d2", capture=True))
+    d2_streams = 0
+    for r in d2:
+        if r["status"] != "ok":
+            continue
+        art = artefacts.load(r)
+        acc = artefacts.job_accel(r["job"])
+        for npu in (art["npu"] if art else []):
+            d2_streams += 1
+            evals += 1
+            words = npu["words"]
+            why = "command-stream tensor is not a driver payload" if words is None else oracle(acc, words, bytes(npu["payload"]))
+            if why is None and okx:
+                o = models.run("driver_parse", [list(npu["payload"])])[0]
+                spec = SPEC[acc]
+                if o[0] != 1 or o[6:] != words or o[5] != len(words) or (4 * o[4]) % 16:
+                    why = "proved reader rejects or disagrees on the payload"
+                elif ((o[1] >> 28) & 15, o[1] & 15, (o[1] >> 8) & 255) != spec:
+                    why = "configuration word %#x does not match accelerator %s" % (o[1], acc)
+            nontrivial.add((acc, len(words or []), "compiled"))
+            if why and first_bad is None:
+                first_bad = (acc, words or [], why + " (compiled model %s seed %s)" % (r.get("net_name"), r["job"]["seed"]))
+    name_of.update({k: k for k in SPEC})
     res.cov.update({
+        "compiled_streams_checked": d2_streams,
         "evaluations": evals, "distinct_nontrivial": len(nontrivial),
         "rule": "payloads built by the real api.npu_create_driver_payload for boundary and random lengths x 6 accelerators; "
                 "distinct (accelerator, length, length mod 4) with length>0; each compared byte for byte with the extracted "
